@@ -7,8 +7,37 @@
   the theorems below hold for EVERY commutative ring / linearly ordered field `R` (in particular ℝ)
   and, where `exp`/`log` occur only under a clip, for every interpretation of `exp`/`log`.
   Nothing here is about IEEE rounding (DESIGN 6.3).
+
+  CLAUSE MAP (clause of the property text → theorem; "methods" = the `Theta.*` / `ThetaI.*` functions the driver runs)
+   1. a prediction depends only on that experiment's sample and treatments (row-wise)
+        → C09_rowwise, C09_rowwise_viability (array functions = mapM of the per-row functions), C09_rowwise_local
+   2. predicting on any subset = the corresponding entries of predicting on the whole screen
+        → C09_rowwise_subset (any row-wise function), C09_subset_screen (the four methods, every carrier type incl. Float),
+          C09_subset_variance; any re-indexing / row order: C09_rowwise_reindex
+   3. ... on its UNORDERED set of treatments: swapping the treatment columns changes nothing
+        → C09_symmetric, C09_symmetric_interaction (per row, value AND failure), C09_symmetric_screen, C09_symmetric_viability,
+          C09_swap_screen (the methods)
+   4. a control treatment contributes nothing; a pair with control predicts like the single agent
+        → gather idiom: C09_gather_eq, C09_gather_eq_cells, C09_gather_eq_rows, C09_gather_error;
+          C09_control_neutral (either column, incl. failure; hypothesis `Shaped`, inhabited), C09_control_control,
+          C09_control_neutral_screen (methods: arity-2 screen with control = arity-1 screen, mean and viability),
+          interaction sample: C09_control_neutral_interaction (mean 0), C09_control_neutral_interaction_viability (ℝ, real exp/log)
+   5. viability is the logistic of the modelled mean clipped to [0.01, 0.99]
+        → by definition of the tied model (`viabilityOfMu = clip ∘ expit`, `interactionViabilityCell`); range: C09_viability_range
+   6. variance is the positive reciprocal precision for every experiment → C09_variance
+   7. prediction never mutates the sample or the screen
+        → buffer model: C09_gather_source_unchanged (the helper), C09_table_reads_pure (ANY sequence of the table reads the
+          prediction path performs), C09_predict_buffers_unchanged (module-level `predict`: its nine reads leave every
+          pre-existing buffer unchanged and `predictMean` is the arithmetic on the nine NEW buffers).
+          harness-only: that numpy's integer-array indexing / arithmetic really allocate (the buffer model's premise), and
+          non-mutation of Python-level attributes (dict `single_effect_lookup`, scalars) -- deep snapshots around every call.
+   8. the stacked helpers return one row per sample in holder order → C09_all_rows, C09_all_rows_complete (converse), C09_variance_all_rows
+   9. the averaged helpers return their exact mean → C09_avg_is_mean (+ C09_prediction_length discharging its length hypothesis
+        for the methods on well-formed screens)
+  harness-only for all clauses: IEEE rounding (tolerance comparison), object identity / lifetime (temporaries), memory layouts.
 -/
 import Batchie.Lemmas.PredictHolder
+import Batchie.Lemmas.PredictMem
 import Mathlib.Analysis.SpecialFunctions.Log.Basic
 
 namespace Batchie.Props.C09
@@ -526,6 +555,26 @@ theorem C09_all_rows (nan : R → Bool) (f : Θ → Except Err (List R)) (n : Na
   rw [this]
   exact predictChecked_ok nan f thetas i _ e
 
+private theorem exMapM_ok {ε A B : Type} (g : A → Except ε B) (h : A → B) (l : List A)
+    (hl : ∀ a ∈ l, g a = .ok (h a)) : l.mapM g = .ok (l.map h) := by
+  induction l with
+  | nil => rfl
+  | cons a l ih =>
+    rw [List.mapM_cons, hl a (by simp), ih (fun b hb => hl b (by simp [hb]))]
+    rfl
+
+/-- conversely: when the holder has a sample at every position `< n`, each predicts, and no cell is
+    NaN-flagged, the stacked helper RETURNS, and row `i` is sample `i`'s prediction (holder order) -/
+theorem C09_all_rows_complete (nan : R → Bool) (f : Θ → Except Err (List R)) (n : Nat) (thetas : List Θ)
+    (P : Nat → List R)
+    (h : ∀ i, i < n → ∃ θ, thetas[i]? = some θ ∧ f θ = .ok (P i) ∧ (P i).any nan = false) :
+    predictAll nan f n thetas = .ok ((List.range n).map P) := by
+  unfold predictAll
+  apply exMapM_ok
+  intro i hi
+  obtain ⟨θ, ht, hf, hn⟩ := h i (by simpa using hi)
+  simp [predictChecked, getTheta, ht, hf, hn, bind, Except.bind, pure, Except.pure]
+
 /-- `predict_variance_all` is the same stack, and refuses an empty holder -/
 theorem C09_variance_all_rows (nan : R → Bool) (f : Θ → Except Err (List R)) (n : Nat) (thetas : List Θ)
     (P : List (List R)) (h : predictVarianceAll nan f n thetas = .ok P) :
@@ -853,5 +902,124 @@ end screens_control
 example : exampleTheta.predictConditionalMean ⟨2, [0, 0, 0], [[1, 0], [-1, 1], [1, -1]]⟩ = .ok [165, 137, 137]
     ∧ exampleTheta.predictConditionalMean (subsetScreen ⟨2, [0, 0, 0], [[1, 0], [-1, 1], [1, -1]]⟩ [false, true, true]) = .ok [137, 137]
     ∧ exampleTheta.predictConditionalMean (singleScreen [0] [1]) = .ok [137] := by decide
+
+
+/-! ## 8. non-mutation of the whole prediction path (buffer model) -/
+
+section buffers
+variable {α : Type} [Add α] [Mul α] [OfNat α 0]
+
+/-- the table-reading operations of module-level `predict`, in program order, on the memory that
+    holds the 2-d tables (`W`, `V2`, `V1` at handles `hW`, `hV2`, `hV1`) ... -/
+def predictOps2 (hW hV2 hV1 : Nat) (rows : List Row) : List GOp :=
+  [.gather hW (rows.map (·.s)), .gcz hV2 (rows.map (·.t0)), .gcz hV2 (rows.map (·.t1)),
+   .gather hW (rows.map (·.s)), .gcz hV1 (rows.map (·.t0)), .gcz hV1 (rows.map (·.t1))]
+
+/-- ... and on the memory that holds the 1-d tables (`W0`, `V0`) -/
+def predictOps1 (hW0 hV0 : Nat) (rows : List Row) : List GOp :=
+  [.gather hW0 (rows.map (·.s)), .gcz hV0 (rows.map (·.t0)), .gcz hV0 (rows.map (·.t1))]
+
+/-- the element-wise arithmetic of `predict` on the nine gathered arrays (every numpy operator and
+    `np.sum` allocates its result) -/
+def predictArith (alpha : α) (w a2 b2 w' a1 b1 : List (List α)) (w0 a0 b0 : List α) : List α :=
+  let interaction2 := (List.zipWith vmul (List.zipWith vmul w a2) b2).map sumL
+  let interaction1 := (List.zipWith vmul w' (List.zipWith vadd a1 b1)).map sumL
+  let intercept := List.zipWith (· + ·) (List.zipWith (· + ·) (w0.map (alpha + ·)) a0) b0
+  List.zipWith (· + ·) (List.zipWith (· + ·) intercept interaction1) interaction2
+
+/-- the functional model of `predict` IS: the nine table reads, then that arithmetic -/
+theorem predictMean_eq_reads (θ : Theta α) (rows : List Row) :
+    predictMean θ rows = (do
+      let w ← gather? θ.W (rows.map (·.s))
+      let a2 ← gatherCopyZero zeroRow θ.V2 (rows.map (·.t0))
+      let b2 ← gatherCopyZero zeroRow θ.V2 (rows.map (·.t1))
+      let w' ← gather? θ.W (rows.map (·.s))
+      let a1 ← gatherCopyZero zeroRow θ.V1 (rows.map (·.t0))
+      let b1 ← gatherCopyZero zeroRow θ.V1 (rows.map (·.t1))
+      let w0 ← gather? θ.W0 (rows.map (·.s))
+      let a0 ← gatherCopyZero zeroCell θ.V0 (rows.map (·.t0))
+      let b0 ← gatherCopyZero zeroCell θ.V0 (rows.map (·.t1))
+      pure (predictArith θ.alpha w a2 b2 w' a1 b1 w0 a0 b0)) := rfl
+
+private theorem len3 {A : Type} (l : List A) (h : l.length = 3) : ∃ a b c, l = [a, b, c] := by
+  match l, h with
+  | [a, b, c], _ => exact ⟨a, b, c, rfl⟩
+
+private theorem len6 {A : Type} (l : List A) (h : l.length = 6) : ∃ a b c d e f, l = [a, b, c, d, e, f] := by
+  match l, h with
+  | [a, b, c, d, e, f], _ => exact ⟨a, b, c, d, e, f, rfl⟩
+
+/-- ANY sequence of table reads of the prediction path (plain gathers and
+    `copy_array_with_control_treatments_set_to_zero`, on any tables that exist when the sequence
+    starts -- this covers `predict`, `predict_single_drug` and both methods of the interaction
+    sample): every buffer that existed before -- the posterior sample's tables, the screen's id
+    arrays, anything else -- is unchanged afterwards, exactly one new buffer per operation is
+    appended, and read back at the END of the sequence the new buffers hold what the functional model
+    computes from the ORIGINAL tables. -/
+theorem C09_table_reads_pure {β : Type} (zero : β → β) (ops : List GOp) (m m' : Mem β) (ids : List Nat)
+    (hsrc : ∀ op ∈ ops, op.src < m.bufs.length) (h : runOps zero m ops = some (m', ids)) :
+    (∀ i, i < m.bufs.length → m'.read i = m.read i)
+    ∧ m'.bufs.length = m.bufs.length + ops.length
+    ∧ (ids.map m'.read).map some = ops.map (fun op => op.pure zero (m.read op.src)) := by
+  refine ⟨runOps_preserves zero ops m m' ids hsrc h, ?_, runOps_results zero ops m m' ids hsrc h⟩
+  obtain ⟨results, hb, _, hpure⟩ := runOps_spec zero ops m m' ids hsrc h
+  have : results.length = ops.length := by
+    have := congrArg List.length hpure
+    simpa using this.symm
+  rw [hb, List.length_append, this]
+
+/-- Module-level `predict` in that memory model: run its nine table reads where the posterior
+    sample's tables live (`m2`: `W`, `V2`, `V1`; `m1`: `W0`, `V0`).  Afterwards every pre-existing
+    buffer of both memories is unchanged, and the functional model's prediction `predictMean θ rows`
+    is exactly the arithmetic on the nine NEW buffers -- so the tie of `predictMean` to the code
+    carries the non-mutation of θ for the whole path, not only for the gather helper. -/
+theorem C09_predict_buffers_unchanged (θ : Theta α) (rows : List Row)
+    (m2 m2' : Mem (List α)) (m1 m1' : Mem α) (hW hV2 hV1 hW0 hV0 : Nat) (ids2 ids1 : List Nat)
+    (lW : hW < m2.bufs.length) (lV2 : hV2 < m2.bufs.length) (lV1 : hV1 < m2.bufs.length)
+    (lW0 : hW0 < m1.bufs.length) (lV0 : hV0 < m1.bufs.length)
+    (rW : m2.read hW = θ.W) (rV2 : m2.read hV2 = θ.V2) (rV1 : m2.read hV1 = θ.V1)
+    (rW0 : m1.read hW0 = θ.W0) (rV0 : m1.read hV0 = θ.V0)
+    (h2 : runOps zeroRow m2 (predictOps2 hW hV2 hV1 rows) = some (m2', ids2))
+    (h1 : runOps zeroCell m1 (predictOps1 hW0 hV0 rows) = some (m1', ids1)) :
+    (∀ i, i < m2.bufs.length → m2'.read i = m2.read i)
+    ∧ (∀ i, i < m1.bufs.length → m1'.read i = m1.read i)
+    ∧ ∃ w a2 b2 w' a1 b1 w0 a0 b0,
+        ids2.map m2'.read = [w, a2, b2, w', a1, b1] ∧ ids1.map m1'.read = [w0, a0, b0]
+        ∧ predictMean θ rows = some (predictArith θ.alpha w a2 b2 w' a1 b1 w0 a0 b0) := by
+  have s2 : ∀ op ∈ predictOps2 hW hV2 hV1 rows, op.src < m2.bufs.length := by
+    intro op hop
+    simp only [predictOps2, List.mem_cons, List.not_mem_nil, or_false] at hop
+    rcases hop with rfl | rfl | rfl | rfl | rfl | rfl <;> simp [GOp.src, lW, lV2, lV1]
+  have s1 : ∀ op ∈ predictOps1 hW0 hV0 rows, op.src < m1.bufs.length := by
+    intro op hop
+    simp only [predictOps1, List.mem_cons, List.not_mem_nil, or_false] at hop
+    rcases hop with rfl | rfl | rfl <;> simp [GOp.src, lW0, lV0]
+  obtain ⟨p2, _, r2⟩ := C09_table_reads_pure zeroRow _ m2 m2' ids2 s2 h2
+  obtain ⟨p1, _, r1⟩ := C09_table_reads_pure zeroCell _ m1 m1' ids1 s1 h1
+  refine ⟨p2, p1, ?_⟩
+  simp only [predictOps2, List.map_cons, List.map_nil, GOp.pure, GOp.src, rW, rV2, rV1] at r2
+  simp only [predictOps1, List.map_cons, List.map_nil, GOp.pure, GOp.src, rW0, rV0] at r1
+  have n2 : (ids2.map m2'.read).length = 6 := by simpa using congrArg List.length r2
+  have n1 : (ids1.map m1'.read).length = 3 := by simpa using congrArg List.length r1
+  obtain ⟨w, a2, b2, w', a1, b1, hl2⟩ := len6 _ n2
+  obtain ⟨w0, a0, b0, hl1⟩ := len3 _ n1
+  rw [hl2] at r2
+  rw [hl1] at r1
+  simp only [List.map_cons, List.map_nil, List.cons.injEq, and_true] at r2 r1
+  obtain ⟨e1, e2, e3, e4, e5, e6⟩ := r2
+  obtain ⟨f1, f2, f3⟩ := r1
+  have hw : w' = w := Option.some.inj (e4.trans e1.symm)
+  subst hw
+  refine ⟨w', a2, b2, w', a1, b1, w0, a0, b0, hl2, hl1, ?_⟩
+  rw [predictMean_eq_reads, ← e1, ← e2, ← e3, ← e5, ← e6, ← f1, ← f2, ← f3]
+  rfl
+
+end buffers
+
+/-- the hypotheses are satisfiable and the statement has content: on a concrete memory the reads run,
+    the tables stay as they were, six buffers are appended -/
+example : (runOps zeroRow (⟨[[[1, 2]], [[1, 1], [2, 3]], [[5, 6], [7, 8]]]⟩ : Mem (List Int))
+      (predictOps2 0 1 2 [⟨0, 1, -1⟩])).map (fun p => (p.1.bufs.take 3, p.1.bufs.length, p.2))
+    = some ([[[1, 2]], [[1, 1], [2, 3]], [[5, 6], [7, 8]]], 9, [3, 4, 5, 6, 7, 8]) := by decide
 
 end Batchie.Props.C09
